@@ -9,7 +9,7 @@ LEAF_KINDS = ["doer", "redoer", "doify", "doize", "method"]
 # multipliers of the scheduler tock used for yielded tocks (dyadic: exact in floats)
 DY_MULT = [0, 0, 0.25, 0.5, 1, 1, 1.5, 2, 2.5, 3]
 DY_TOCKS = [0.03125, 0.125, 0.25, 0.5, 1.0, 2.0]
-DY_STARTS = [0.0, 0.0, 0.5, 1.0, 7.25, 1000.0]
+DY_STARTS = [0.0, 0.0, 0.5, 1.0, 7.25, 1000.0, 1073741824.0, 1700000000.0]  # incl. epoch-sized starts (still exact)
 ND_TOCKS = [0.1, 0.3, 1 / 3, 0.7, 0.01]
 ND_YIELDS = [0, 0.1, 0.07, 1 / 3, 0.7, 0.25, 1.1, 2.3]
 ND_STARTS = [0.0, 0.1, 2.7]
